@@ -121,6 +121,29 @@ def gen_service(rng, n_if=None, simple_scripts=False, pool=None):
                       comparable=all(utf8(v) for v in (vendor, product, version, url)))
 
 
+def meet_case(rng):
+    """two connections whose handlers can only finish if the service runs them at the same time; the second connection is
+    opened while the first one's handler is already running"""
+    import jsongen as J
+    secs = ["svc 76 70 31 75 -", "iface %s %s" % (S.hx(b"a.b"), S.hx(b"interface a.b\nmethod M() -> ()"))]
+    scripts, conns = {}, []
+    k = "k%d" % rng.randrange(1000)
+    for mi, mode in enumerate(["half", "late"]):
+        m = b"a.b.Meet%d" % mi
+        steps = [S.Step("b", "c", arg=k.encode()), S.Step("r", "e", val="{77686f:S%s;}" % m.hex())]
+        scripts[m] = (steps, False)
+        secs.append(S.script_text(m, steps, False))
+    for mi, mode in enumerate(["half", "late"]):
+        m = b"a.b.Meet%d" % mi
+        calls = [Call(m, b"{}")] + ([Call(b"org.varlink.service.GetInfo", None)] if rng.random() < 0.5 else [])
+        data = b"".join(S.call_bytes(rng, c.method, c.params, False, False, False) + b"\x00" for c in calls)
+        conns.append((calls, data))
+        secs.append("conn %s %s" % (mode, data.hex()))
+    meta = dict(registry=[b"a.b"], descrs={S.SVC: svc_descr(), b"a.b": b"interface a.b\nmethod M() -> ()"}, scripts=scripts, conns=conns,
+                info={"vendor": "v", "product": "p", "version": "1", "url": "u", "interfaces": [S.SVC.decode(), "a.b"]}, comparable=True)
+    return " | ".join(secs), meta
+
+
 def check_conn(meta, calls, cs, ci):
     """Compare one connection's observable with the statement's reading. -> error text or None"""
     out, log, ovl = conn_fields(cs)
@@ -185,6 +208,8 @@ def expected_conn(registry, descrs, scripts, calls, info):
         for st in steps:
             ok = True
             obj = None
+            if st.kind in ("b", "w"):
+                continue            # a rendezvous with another connection's handler / a pause: no effect of its own
             if st.kind == "r":
                 if st.cont and not c.more:
                     ok = False
